@@ -19,6 +19,7 @@ FUNCTIONS = ["UnitDatabase._DoOperationWithSameQuantity (composing-units compari
              "UnitDatabase.Convert/_ConvertWithExp", "Scalar.__lt__ + total_ordering", "FractionScalar.__lt__", "Quantity.__init__ (unit vs category)",
              "ObtainQuantity", "Array._DoOperation/GetValues", "AbstractValueWithQuantityObject.CreateCopy"]
 EXTRA_KINDS = ["derived_construct", "derived_construct_rev", "lt_same_unit_text"]
+MORE_KINDS = ["empty_array_add", "empty_array_sub", "construct_after_override", "db.Convert.exp", "derived.GetValue.exp"]
 KINDS = ["add", "sub", "radd", "lt", "gt", "le", "GetValue", "CreateCopy", "db.Convert", "ObtainQuantity", "construct", "array_add", "array_GetValues",
          "array_construct", "fraction_lt", "fraction_GetValue", "fraction_construct", "fixed_construct"]
 BOUNDS = {
@@ -75,6 +76,8 @@ def items(tier, seed):
         out.append({"k": rng.choice(["d_add", "d_sub", "d_lt", "d_array_add"]), "A": A, "B": B})
     for i, (a, ua, b, ub) in enumerate(pairs[:60 if tier == "quick" else 2000]):
         out.append({"k": EXTRA_KINDS[i % 2], "qa": a, "ua": ua, "qb": b, "ub": ub})
+    for i, (a, ua, b, ub) in enumerate(pairs[60:60 + (100 if tier == "quick" else 3000)]):
+        out.append({"k": MORE_KINDS[i % len(MORE_KINDS)], "qa": a, "ua": ua, "qb": b, "ub": ub})
     for sq, reg, qreg in (("m/s", "m/s2", "acceleration linear"), ("kg/m", "kg/m2", "surface density"), ("m", "m2", "area"), ("ft", "ft2", "area")):
         for side in ("left", "right"):
             for cmp_ in ("lt", "gt", "le", "ge"):
@@ -114,7 +117,7 @@ def _battery(db, cfg, V):
 
     out = []
     for qt, u in ((cfg.get("qa"), cfg.get("ua")), (cfg.get("qb"), cfg.get("ub"))):
-        if not qt:
+        if not qt or cfg["k"] == "construct_after_override":
             continue
         base = db.GetUnits(qt)[0]
         s = Scalar(V["x"], u, qt)
@@ -187,6 +190,20 @@ def run(cfg, V):
                     ubf = db.GetInfo(qb, ub).unit
                     od = OrderedDict([(qb, [ubf, 1]), (qa, [ubf, 1])])  # ub is valid first, then used under a foreign category
                 fn = lambda: Quantity.CreateDerived(OrderedDict((c, list(ue)) for c, ue in od.items()))
+            elif k in ("empty_array_add", "empty_array_sub"):
+                ea, eb = Array([], ua, qa), Array((), db.GetInfo(qb, ub).unit, qb)
+                operands = [ea, eb]
+                fn = (lambda: ea + eb) if k.endswith("add") else (lambda: eb - ea)
+            elif k == "construct_after_override":
+                Scalar(x, ua, qa)  # warms the quantity cache for (category, unit)
+                db.AddCategory(qa, qb, override=True)  # the category now belongs to another quantity type
+                fn = lambda: Scalar(y, ua, qa)
+            elif k == "db.Convert.exp":
+                fn = lambda: db.Convert(qa, [(ua, 2)], [(db.GetInfo(qb, ub).unit, 2)], x)
+            elif k == "derived.GetValue.exp":
+                sq2 = Scalar(x, ua, qa) * Scalar(y, ua, qa)
+                operands = [sq2]
+                fn = lambda: sq2.GetValue([(db.GetInfo(qb, ub).unit, 2)])
             elif k == "GetValue":
                 fn = lambda: a.GetValue(ub)
             elif k == "CreateCopy":
@@ -223,6 +240,7 @@ def run(cfg, V):
                 raise KeyError(k)
         snaps0 = [snap_value(o) for o in operands]
         bat0 = _battery(db, cfg, V)
+        reg0 = snap_registry(db) if k == "construct_after_override" else reg0  # (that kind registers before the failing call)
         reg_mid = snap_registry(db)
         first = _attempt(fn)
         second = _attempt(fn)
